@@ -98,7 +98,11 @@ func init() {
 			if err := nm.Apply(op); err != nil {
 				return stepErr(i, op, err)
 			}
-			snaps = append(snaps, nm.TakeSnap(op.Op))
+			name := op.Op
+			if op.Prune {
+				name += "-prune"
+			}
+			snaps = append(snaps, nm.TakeSnap(name))
 		}
 		_, _, err = crashSweep(nm, snaps, 0, nil)
 		return err
@@ -172,6 +176,9 @@ func TestC05(t *testing.T) {
 		if rapid.IntRange(0, 5).Draw(rt, "genesisfault") == 0 {
 			opts.GenesisFault = rapid.IntRange(1, 3).Draw(rt, "genesisfaultat")
 		}
+		// one history in four runs with a slide window: the irreversible height is part of what a failed operation
+		// (a walk that applies some blocks and then fails) must leave identical in the running and the reopened node
+		opts.Window = rapid.SampledFrom([]int64{0, 0, 0, 1, 2}).Draw(rt, "window")
 		cs.Op(map[string]interface{}{"opts": opts})
 		nm, err := hx.NewNodeMachine(opts, fs)
 		if err != nil {
@@ -277,6 +284,8 @@ func TestC06(t *testing.T) {
 	c.Check(t, "crash-prefixes", hx.N(150, 500), func(cs *hx.Case) {
 		rt := cs.RT()
 		opts := hx.DefaultOpts()
+		// one scenario in three runs with a slide window: the persisted irreversible height is part of every image
+		opts.Window = rapid.SampledFrom([]int64{0, 0, 1, 2, 0, 0}).Draw(rt, "window")
 		cs.Op(map[string]interface{}{"opts": opts})
 		nm, err := hx.NewNodeMachine(opts, fs)
 		if err != nil {
@@ -289,7 +298,11 @@ func TestC06(t *testing.T) {
 			if err := nm.Apply(op); err != nil {
 				cs.Failf("uninterrupted run: %s: %v", opJSON(op), err)
 			}
-			snaps = append(snaps, nm.TakeSnap(op.Op))
+			name := op.Op
+			if op.Prune {
+				name += "-prune"
+			}
+			snaps = append(snaps, nm.TakeSnap(name))
 		}
 		// fork skeleton so that multi-block walks are frequent
 		if rapid.IntRange(0, 9).Draw(rt, "skeleton") < 6 {
